@@ -650,7 +650,7 @@ Lemma key_byte_keyb c : key_byte_ok c = true -> keyb c.
 Proof. unfold key_byte_ok, keyb, is_eq, is_sp, is_dq. lia. Qed.
 Lemma legal_key_ok k : legal_key k = true -> key_ok k.
 Proof.
-  destruct k as [|c k']; [discriminate|]. intros H. split; [discriminate|].
+  destruct k as [|c k']; [discriminate|]. intros H. apply andb_true_iff in H. destruct H as [H _]. split; [discriminate|].
   eapply forallb_Forall; [|exact H]. apply key_byte_keyb.
 Qed.
 Lemma dotted_ok pfx k : key_ok pfx -> key_ok k -> key_ok (dotted pfx k).
@@ -1110,7 +1110,10 @@ Proof. unfold bare_byte_ok, clean_byte. lia. Qed.
 Lemma elem_byte_clean b : elem_byte_ok b = true -> clean_byte b = true.
 Proof. unfold elem_byte_ok. rewrite !andb_true_iff. intros [[[H _] _] _]. apply bare_byte_clean. exact H. Qed.
 Lemma legal_key_clean k : legal_key k = true -> clean_text k = true.
-Proof. destruct k as [|c k']; [discriminate|]. apply forallb_impl. apply key_byte_clean. Qed.
+Proof.
+  destruct k as [|c k']; [discriminate|]. intros H. apply andb_true_iff in H. destruct H as [H _].
+  revert H. apply forallb_impl. apply key_byte_clean.
+Qed.
 Lemma qtext_clean t : qtext_ok t = true -> clean_text t = true.
 Proof. apply forallb_impl. apply qtext_byte_clean. Qed.
 Lemma bare_clean t : bare_ok t = true -> clean_text t = true.
